@@ -86,15 +86,25 @@ theorem k1_lambda_one (d : Nat) :
 
 /-! ### what the three policies return for a context row -/
 
+/-- an arm whose scaler is not fitted (scale=False, or an arm never trained) sees the raw query row -/
+theorem scaleRow_unfitted (sc x : Vec) : scaleRow [] sc x = x := rfl
+
+/-- with a fitted scaler every coordinate is `(x - mean) / scale` -/
+theorem scaleRow_fitted (m : Rat) (mu : Vec) (s : Rat) (sc : Vec) (x0 : Rat) (x : Vec) :
+    scaleRow (m :: mu) (s :: sc) (x0 :: x) = (x0 - m) / s :: List.zipWith (fun (p : Rat × Rat) s => (p.1 - p.2) / s) (List.zip x mu) sc := by
+  simp [scaleRow]
+
 /-- the per-arm column fold of `_vectorized_predict_context` for LinUCB: no draws, one symbolic value
-    `x·β + α·sqrt(x A⁻¹ xᵀ)` per non-random row and arm -/
+    `x'·β + α·sqrt(x' A⁻¹ x'ᵀ)` per non-random row and arm, `x'` the row standardised with that arm's
+    scaler (the row itself when `scale=False`) -/
 theorem linucb_columns (s : LP α) (alpha lam : Rat) (hk : s.kind = .linUCB alpha lam) (rows : List Vec)
     (arms : List α) (acc : List (List Expect)) (g : Rng) :
     arms.foldl (fun (acc : List (List Expect) × Rng) a =>
       let r : ArmSt α := (s.st.get? a).getD {}
       match s.kind with
       | .linUCB alpha _ =>
-        (acc.1 ++ [rows.map fun x => Expect.lin (dot x r.beta) alpha (dot (vecMul x r.Ainv) x)], acc.2)
+        (acc.1 ++ [rows.map fun x0 => Expect.lin (dot (scaleRow r.mu r.sc x0) r.beta) alpha
+                      (dot (vecMul (scaleRow r.mu r.sc x0) r.Ainv) (scaleRow r.mu r.sc x0))], acc.2)
       | .linTS alpha _ =>
         let d := r.beta.length
         let strm := if r.rngPriv then Stream.copyOf Stream.main else Stream.main
@@ -102,10 +112,12 @@ theorem linucb_columns (s : LP α) (alpha lam : Rat) (hk : s.kind = .linUCB alph
                                     params := r.beta.map Expect.val ++ (msmul (alpha * alpha) r.Ainv).flatten.map Expect.val,
                                     size := rows.length * d }
         let B := chunk d rows.length bv
-        (acc.1 ++ [(List.zip rows B).map fun p => Expect.val (dot p.1 p.2)], g)
-      | _ => (acc.1 ++ [rows.map fun x => Expect.val (dot x r.beta)], acc.2)) (acc, g) =
-    (acc ++ arms.map (fun a => rows.map fun x =>
-        Expect.lin (dot x ((s.st.get? a).getD {}).beta) alpha (dot (vecMul x ((s.st.get? a).getD {}).Ainv) x)), g) := by
+        (acc.1 ++ [(List.zip rows B).map fun p => Expect.val (dot (scaleRow r.mu r.sc p.1) p.2)], g)
+      | _ => (acc.1 ++ [rows.map fun x0 => Expect.val (dot (scaleRow r.mu r.sc x0) r.beta)], acc.2)) (acc, g) =
+    (acc ++ arms.map (fun a => rows.map fun x0 =>
+        Expect.lin (dot (scaleRow ((s.st.get? a).getD {}).mu ((s.st.get? a).getD {}).sc x0) ((s.st.get? a).getD {}).beta) alpha
+          (dot (vecMul (scaleRow ((s.st.get? a).getD {}).mu ((s.st.get? a).getD {}).sc x0) ((s.st.get? a).getD {}).Ainv)
+               (scaleRow ((s.st.get? a).getD {}).mu ((s.st.get? a).getD {}).sc x0))), g) := by
   induction arms generalizing acc with
   | nil => simp
   | cons a arms ih =>
